@@ -355,7 +355,10 @@ class WriteRun:
         if self.variant == "discovery":
             # T announcing itself (and then pinging its hosts every 25 s) is client traffic that no clause looks at
             self.tov.cancel_pending_task("store_peer")
-        self.R = [Node(self.net, 1), Node(self.net, 2), Node(self.net, 3), Node(self.net, 4, key_index=1)]
+        # the fourth requester is key k0 again, on the SAME host as the first (same IP, other port): a token is bound
+        # to the whole address, not to the IP or to whatever the node id is derived from
+        self.R = [Node(self.net, 1), Node(self.net, 2), Node(self.net, 3),
+                  Node(self.net, 4, address=(f"1.0.0.2", 8004), key_index=1)]
         self.O = Node(self.net, 5)
         for n in [*self.R, self.O]:
             n.add(cls).cancel_all_pending_tasks()       # requesters are tools of the harness: no traffic of their own
